@@ -95,7 +95,7 @@ func HarnessC01Triples() {
 		return b
 	}
 	B := verif.Param("B", 1)
-	b1, b2, b3 := mk("b1", verif.Param("PRE", 2)), mk("b2", B), mk("b3", B)
+	b1, b2, b3 := mk("b1", verif.Param("PRE", 2)), mk("b2", verif.Param("RB", B)), mk("b3", B)
 	// the other graph gets one triple of fixed kinds (symbolic bytes) plus b1
 	other := []*spec{symTripleKinds("other", 0, 0, 0)}
 	op3 := verif.Choice("op3", 2)
